@@ -21,7 +21,11 @@ RULE = ("histories of 6-30 ops (35% preceded by a prefix that commits 2-5 disjoi
         "writers, deletes not gated by the open writers (~1.5% of ops); 40% of the deletes (when data exists) are "
         "deletes DURING which fresh writers open/write/commit/close inside the start- and/or end-offset resolver "
         "(before the start domain, in gaps inside the range, after it), bounds mostly inside domains so that the "
-        "resolvers run and several domains are spanned; file size cap from {default,5,10,16,40} bytes "
+        "resolvers run and several domains are spanned; 45% of the writers persist the index lazily (on close only), "
+        "deletes of domains lying after the open writers' domains, and restarts (reopen = close all writers, close the "
+        "DB, open it again on the same in-memory FS; ~3% of ops and at the end of 30% of the histories, half of those "
+        "followed by an open inside/next to surviving data) so that the index a restarted database LOADS is judged by "
+        "every clause; file size cap from {default,5,10,16,40} bytes "
         "so file roll-over happens in about half of the cases. Plus, once per run, all 9^4 quadruples of "
         "{MinInt64,-5,0,1,5,10,11,MAX-1,MAX} through telem.TimeRange OverlapsWith/ContainsRange/BoundBy/"
         "ContainsStamp/Valid/MakeValid against Common/Telem.v. Non-trivial = at least one rejected op "
@@ -141,6 +145,8 @@ def gen_case(rng):
             w = nextw
             nextw += 1
             ops.append({"op": "open", "w": w, "start": start, "end": end})
+            if rng.random() < 0.45:
+                ops[-1]["lazy"] = True        # index persisted on close only
             ok = not sim.inside(start) and not (end != 0 and end < start) and \
                 not (end > start and sim.overlaps(start, end))
             if ok:
@@ -207,6 +213,29 @@ def gen_case(rng):
             ops.append({"op": "close", "w": w})
             sim.dead.append(w)
             del sim.w[w]
+        elif x < 0.885:
+            # ---- restart: close everything, reopen the database on the same files
+            ops.append({"op": "reopen"})
+            sim.dead += list(sim.w)
+            sim.w = {}
+        elif x < 0.90 and sim.w and sim.dom:
+            # ---- delete (part of) a domain that lies AFTER the domains of the open writers
+            hi = max([v["own"][1] if v["own"] else v["start"] for v in sim.w.values()])
+            later = [d for d in sim.dom if d[0] >= hi]
+            if later:
+                s0, e0 = rng.choice(later)
+                a, b = rng.choice([(s0, e0), ((s0 + e0) // 2, e0), (s0, (s0 + e0) // 2 + 1), (s0 + 1, max(s0 + 1, e0 - 1))])
+                ops.append({"op": "delete", "a": a, "b": b})
+                nd = []
+                for s_, e_ in sim.dom:
+                    if [s_, e_] != [s0, e0]:
+                        nd.append([s_, e_])
+                        continue
+                    if s_ < a:
+                        nd.append([s_, a])
+                    if b < e_:
+                        nd.append([b, e_])
+                sim.dom = sorted(nd)
         elif x < 0.96:
             # ---- delete
             lim = min([v["start"] for v in sim.w.values()] or [MAXTS])
@@ -328,6 +357,51 @@ def gen_case(rng):
                     sim.w[w] = {"start": ops[-1]["start"], "pe": 0, "prev": None, "pend": 0, "fs": 0, "own": None}
             else:
                 ops.append({"op": "open", "w": w, "start": stamp(rng), "end": 0})
+    if sim.dom and rng.random() < 0.18:
+        # an unflushed commit below a later delete, then a restart: a lazily persisting writer
+        # commits a new domain into a gap before an existing domain and stays open, a delete
+        # hits that later domain, (the writer closes,) the database is reopened
+        pool = [0, 1, 2, 3, 6, 7, 8, 11, 13, 16, 17, 18, 22, 23, 26, 27, 28, 31, 33, 35, 41, 42, 45, 46, 48]
+        cands = []
+        for d in sim.dom:
+            for t in pool:
+                if t < d[0] and not sim.inside(t) and t < sim.next_start(t) <= d[0]:
+                    cands.append((t, d))
+        if cands:
+            t, d = rng.choice(cands)
+            e_ = min(sim.next_start(t), t + rng.choice([1, 2, 4, 9]))
+            n = rng.randrange(1, 6)
+            data = [(ctr + i) % 251 for i in range(n)]
+            ctr += n
+            w = nextw
+            nextw += 1
+            ops += [{"op": "open", "w": w, "start": t, "end": rng.choice([0, 0, e_]), "lazy": rng.random() < 0.85},
+                    {"op": "write", "w": w, "data": data},
+                    {"op": "commit", "w": w, "end": e_}]
+            s0, e0 = d
+            a, b = rng.choice([(s0, e0), ((s0 + e0) // 2, e0), (s0, (s0 + e0) // 2 + 1), (s0 + 1, max(s0 + 1, e0 - 1)),
+                               ((s0 + e0) // 2, min(MAXTS, e0 + 3))])
+            ops.append({"op": "delete", "a": a, "b": b})
+            if rng.random() < 0.3:
+                ops += [{"op": "write", "w": w, "data": [(ctr) % 251]}, {"op": "commit", "w": w, "end": e_}]
+                ctr += 1
+            if rng.random() < 0.5:
+                ops.append({"op": "close", "w": w})
+            ops.append({"op": "reopen"})
+            if rng.random() < 0.6:
+                ops.append({"op": "open", "w": nextw, "start": rng.choice([t, s0, (s0 + e0) // 2, max(s0, e0 - 1), e_]), "end": 0})
+                nextw += 1
+            return {"file_size": fsz, "ops": ops}
+    if rng.random() < 0.30:
+        ops.append({"op": "reopen"})
+        if rng.random() < 0.5:
+            # after the restart: a writer starting inside / next to what should be there
+            if sim.dom:
+                s0, e0 = rng.choice(sim.dom)
+                st_ = rng.choice([s0, (s0 + e0) // 2, max(s0, e0 - 1), e0])
+            else:
+                st_ = stamp(rng)
+            ops.append({"op": "open", "w": nextw, "start": st_, "end": 0})
     return {"file_size": fsz, "ops": ops}
 
 
@@ -350,6 +424,8 @@ def c_op(o, key):
         return "Commit %s %s %s" % (cN(o["w"]), cZ(o["end"]), cN(key))
     if k == "close":
         return "Close %s" % cN(o["w"])
+    if k == "reopen":
+        return "Reopen"
     if k == "deletec":
         keys = key if isinstance(key, dict) else {}
         return "DeleteC %s %s %s %s" % (
